@@ -8,8 +8,8 @@ PROP = "C17"
 
 def s_jobs(tier):
     t = 200 if tier == "quick" else 900
-    return [chrun.SJob("vlib.sh.c17a", "c17a", base.parts(21), t,
-                       what="change_extension_functions_to_calls on 7 program shapes (incl. operator calls whose arguments are given by keyword) x 0..2 extra arguments, after an earlier call with a caller-supplied list of names; symbolic: two attribute "
+    return [chrun.SJob("vlib.sh.c17a", "c17a", base.parts(24), t,
+                       what="change_extension_functions_to_calls on 8 program shapes (incl. an operator call whose result is called on the spot, operator calls whose arguments are given by keyword) x 0..2 extra arguments, after earlier calls with a caller-supplied and with an empty list of names; symbolic: two attribute "
                             "names (any str, len<=12) at two different depths; oracle: reference bottom-up conversion; also idempotence "
                             "and absence of remaining method-form operator calls")]
 
@@ -35,7 +35,7 @@ def run(tier):
     chrun.fold_into(r, so)
     base.finish_s(r, so, rule=base.S_RULE,
                   explanation="S part: bounded symbolic execution of change_extension_functions_to_calls with two fully symbolic attribute names (structure, selectivity, idempotence)")
-    r.coverage["bounds_s"] = {"name_len": 12, "extra_args": [0, 2], "shapes": 7}
+    r.coverage["bounds_s"] = {"name_len": 12, "extra_args": [0, 2], "shapes": 8}
     us, n = t_units(tier)
     res = tvrun.run_units(us)
     tvrun.fold_into(r, res, "change_extension_functions_to_calls on %d mixed-form family instances (with non-operator look-alike methods) + method/mixed-form grammar and random programs" % n)
